@@ -2,6 +2,7 @@
 
     Transcribed from
       construct/curves/curve.py         CurveBase.get_closest_param, FunctionCurveBase.discretize/get_closest_param
+                                        (several starts: fixes/C16-2.diff; one start = the snapshot)
       construct/curves/discrete.py      DiscreteCurve.discretize/get_length/get_closest_param/get_point
       construct/curves/interpolators.py InterpolatorBase.params, LinearInterpolator (scipy interp1d, linear)
       construct/curves/interpolated.py  InterpolatedCurveBase.get_length (repaired formula, fixes/C16-1.diff, and the
@@ -56,10 +57,29 @@ Definition fc_length := fc_length_n 100.
     a parameter of the model, its value is read from the implementation by the correspondence) *)
 Definition fc_coarse (f : R -> vec) (lo hi : R) (cnt : nat) (q : vec) : R :=
   nth (argmin (map (fun p => dist p q) (fc_discretize f lo hi cnt))) (linspace lo hi cnt) lo.
-(** FunctionCurveBase.get_closest_param: [minimise] stands for scipy.optimize.minimize started at the coarse
+(** np.argsort(kind="stable"): the indices sorted by their entries, equal entries in the order of their indices
+    (the indices are inserted from the last to the first, each before the first index whose entry is not smaller) *)
+Fixpoint insert_idx (d : nat -> R) (k : nat) (l : list nat) : list nat :=
+  match l with
+  | [] => [k]
+  | j :: t => if Rle_dec (d k) (d j) then k :: l else j :: insert_idx d k t
+  end.
+Definition argsort_from (d : nat -> R) (i n : nat) : list nat := fold_right (insert_idx d) [] (seq i n).
+Definition argsort (ds : list R) : list nat := argsort_from (fun i => nth i ds 0) 0 (length ds).
+(** the coarse samples sorted by their distance from the query (fixes/C16-2.diff: CurveBase._get_coarse_params);
+    the search starts from the parameters of the first [ns] of them ([ns] = 3 in the repaired code, 1 in the
+    snapshot; a parameter of the model, read from the implementation by the correspondence).  The first start is
+    [fc_coarse] (Proofs/C16_Curves.v: [argsort_hd], [fc_starts_hd]). *)
+Definition fc_starts (f : R -> vec) (lo hi : R) (cnt ns : nat) (q : vec) : list R :=
+  map (fun k => nth k (linspace lo hi cnt) lo)
+      (firstn ns (argsort (map (fun p => dist p q) (fc_discretize f lo hi cnt)))).
+(** min(results, key=...): the first entry with the smallest key *)
+Definition best_of (g : R -> R) (rs : list R) (d : R) : R := nth (argmin (map g rs)) rs d.
+(** FunctionCurveBase.get_closest_param: one run of the bounded minimiser from every start, the result whose point
+    is closest to the query is returned.  [minimise] stands for scipy.optimize.minimize started at a given
     parameter (a black box; assumption stated where it is used) *)
-Definition fc_closest (minimise : R -> R) (f : R -> vec) (lo hi : R) (cnt : nat) (q : vec) : R :=
-  minimise (fc_coarse f lo hi cnt q).
+Definition fc_closest (minimise : R -> R) (f : R -> vec) (lo hi : R) (cnt ns : nat) (q : vec) : R :=
+  best_of (fun r => dist (f r) q) (map minimise (fc_starts f lo hi cnt ns q)) lo.
 
 (** LineCurve / CircleCurve (f.rotate = expm of the skew matrix = Rodrigues' formula; [nrm] is the normal as
     given, the code normalises it) *)
